@@ -23,7 +23,8 @@ Definition part := (Z * list Z)%type.               (* (oid, canonical contents)
 (* shape: 0 scalar, 1 list, 2 dict, 3 set, 4 tuple (tuple object, inner list, scalar),
    5 a TraitListObject, 6 a TraitDictObject (they and the set fire the "<name>_items" event when mutated;
    1 / 2 are a plain Python list / dict), 7 a tuple of two TraitListObjects (tuple object, first list,
-   second list), 8 a numpy array, 9 error *)
+   second list), 8 a numpy array, 9 error,
+   10 an opaque immutable object with identity (a uuid) *)
 Record value := mkV { v_shape : Z; v_parts : list part }.
 
 (* ---- trait definitions ---- *)
@@ -41,6 +42,7 @@ Inductive kind :=
 | KEvent       (* "<name>_items" / trait_added event traits (never read) *)
 | KTuple2      (* CALLABLE_DEFAULT_VALUE: Tuple(List(Int, content), List(Int, [scalar])): two container members *)
 | KArray       (* CALLABLE_AND_ARGS_DEFAULT_VALUE: Array(dtype=float, shape=(k,), value=[..]): copy_default_value *)
+| KUuid        (* CALLABLE_AND_ARGS_DEFAULT_VALUE: UUID(): (self._create_uuid, (), None) — a new uuid per instance *)
 | KMethodInt.  (* CALLABLE_DEFAULT_VALUE: Int with a _name_default method returning an int: counted, validated *)
 
 Record tdef := mkT {
@@ -75,7 +77,8 @@ Record world := mkW {
 (* names: n >= 0 declared traits, n + 1000 the "<n>_items" trait, -1 trait_added *)
 Definition items_name (n : Z) : Z := n + 1000.
 Definition trait_added : Z := -1.
-Definition any_name : Z := -2.        (* on_trait_change(handler) without a name: the object's own notifier list *)
+Definition any_name : Z := -2.
+Definition anytrait_name : Z := -4.   (* class-table row marking a class-level _anytrait_changed method *)        (* on_trait_change(handler) without a name: the object's own notifier list *)
 
 Inductive op :=
 | Read (i n : Z)                                   (* getattr(obj_i, n) *)
@@ -134,6 +137,7 @@ Definition default_value (t : tdef) (next : Z) : value * Z :=
   | KTraitDict => (mkV 6 [(next, t_content t)], next + 1)
   | KTraitSet => (mkV 3 [(next, t_content t)], next + 1)
   | KTuple => (mkV 4 [(next, []); (next + 1, t_content t); (0, [t_scalar t])], next + 2)
+  | KUuid => (mkV 10 [(next, [])], next + 1)                         (* uuid.uuid4(): a new object per call *)
   | KArray => (mkV 8 [(next, t_content t)], next + 1)                (* a fresh copy of the class-level array *)
   | KTuple2 => (mkV 7 [(next, []); (next + 1, t_content t); (next + 2, [t_scalar t])], next + 3)
   | KEvent => (mkV 9 [], next)
@@ -184,9 +188,16 @@ Section Step.
     | None => alookup n (class_of ins)
     end.
 
+  (* a class defining `_anytrait_changed(self, name, old, new)` has the row [anytrait_name]: that static catch-all
+     handler (id -5) is the first notifier of every class trait and of every trait added later *)
+  Definition class_any (ins : inst) : bool :=
+    match alookup anytrait_name (class_of ins) with Some _ => true | None => false end.
+  Definition any_count (ins : inst) : Z := if class_any ins then 1 else 0.
+
   (* the handlers a change of name n on this instance reaches, in call order *)
   Definition hids (ins : inst) (t : tdef) (n : Z) : list Z :=
-    (if t_static t then [0] else [])
+    (if class_any ins then [-5] else [])
+    ++ (if t_static t then [0] else [])
     ++ map snd (filter (fun p => fst p =? n) (i_regs ins))
     ++ map snd (filter (fun p => fst p =? any_name) (i_regs ins)).     (* tnotifiers, then onotifiers *)
 
@@ -221,7 +232,7 @@ Section Step.
       match alookup (items_name n) its with
       | Some _ => its
       | None =>
-          let its1 := its ++ [(items_name n, mkT KEvent [] 0 0 0 false 2 0)] in
+          let its1 := its ++ [(items_name n, mkT KEvent [] 0 0 (any_count ins) false 2 0)] in
           match alookup trait_added its1, alookup trait_added (class_of ins) with
           | None, Some ta => its1 ++ [(trait_added, ta)]
           | _, _ => its1
@@ -232,12 +243,15 @@ Section Step.
   (* With an object-level handler the items event of a Trait{List,Dict,Set}Object reaches a wrapper, whose
      _change_accepted calls object._trait("<n>_items", 2): the items trait is cloned into the instance. *)
   Definition fires_items (v : value) : bool := (v_shape v =? 3) || (v_shape v =? 5) || (v_shape v =? 6).
-  Definition has_any (ins : inst) : bool := existsb (fun p => fst p =? any_name) (i_regs ins).
+  Definition has_any (ins : inst) : bool := existsb (fun p => fst p =? any_name) (i_regs ins) || class_any ins.
   Definition any_fix (ins : inst) (n : Z) (v : value) (its : list (Z * tdef)) : list (Z * tdef) :=
     if fires_items v && has_any ins then
       match alookup (items_name n) its with
       | Some _ => its
-      | None => its ++ [(items_name n, mkT KEvent [] 0 0 0 false 2 0)]
+      | None => its ++ [(items_name n, match alookup (items_name n) (class_of ins) with
+                                       | Some ct => ct                      (* clone of the class's items trait *)
+                                       | None => mkT KEvent [] 0 0 0 false 2 0
+                                       end)]
       end
     else its.
 
@@ -409,7 +423,11 @@ Section Step.
                                    | None => false
                                    end
                          end in
-            let nn0 := match alookup (items_name n) (i_itraits ins) with Some it => t_nnotif it | None => 0 end in
+            let nn0 := match alookup (items_name n) (i_itraits ins), alookup (items_name n) (class_of ins) with
+                       | Some it, _ => t_nnotif it
+                       | None, Some ct => t_nnotif ct
+                       | None, None => any_count ins
+                       end in
             let its := aset (items_name n) (mkT KEvent [] 0 0 nn0 false 2 0) (i_itraits ins) in
             if known then its else fire its
           else i_itraits ins in
@@ -419,7 +437,7 @@ Section Step.
         let tmpl := alookup (n + 3000) (class_of ins) in
         let nn := match old with
                   | Some ot => t_nnotif ot
-                  | None => match tmpl with Some tm => t_nnotif tm | None => 0 end
+                  | None => match tmpl with Some tm => t_nnotif tm | None => any_count ins end
                   end in
         let st := match old with
                   | Some ot => t_static ot
